@@ -1,12 +1,12 @@
-SPECIFICATION MSpec
-CONSTANTS Kind = "channel"
-          Init_ = "c"
+SPECIFICATION Spec2
+CONSTANTS KindA = "rr"
+          InitA = "c"
+          KindB = "stream"
+          InitB = "c"
           MaxElems = 1
           Credits = {1}
-          MaxGrants = 1
+          MaxGrants = 0
           HasPub = FALSE
-          Slot = 0
-          SidOff = 0
           LibSource = FALSE
 INVARIANT NoClauseFails
 INVARIANT DeliveredIsPrefixOfHanded
